@@ -315,6 +315,10 @@ def toolopt_cases():
         for l in lists:
             yield {'k': 'toolopt', 'tool': tool, 'opt': ['-f', l]}
             yield {'k': 'toolopt', 'tool': tool, 'opt': ['-f', l, '+f', l]}
+    # more parameters than the tools keep books for
+    for tool in ('p2bin', 'p2hex', 'pbind', 'plist'):
+        for n in (200, 252, 253, 254, 255, 256, 300, 2000):
+            yield {'k': 'toolopt', 'tool': tool, 'opt': ['-q'] * n}
     nums = ['0', '1', '2', '3', '15', '16', '17', '254', '255', '256', '257', '65535', '65536', '0x7fffffff', '0xffffffff', '0x100000000', '-1', '', 'x', '1x', '$10', '0x']
     for v in nums:
         for o in ('-l', '-e', '-R', '-i', '-M', '-avrlen', '-m', '-d'):
@@ -538,7 +542,7 @@ def evaluate(case):
             core.put('x.p', seeds()['twoseg'])
             return core.run(name, args, variant=v, timeout=to, maxout=1 << 16)
         o = run('asan')
-        d = '%s %s' % (name, ' '.join(a if len(a) < 60 else a[:40] + '...(%d characters)' % len(a) for a in case['opt']))
+        d = '%s %s' % (name, ' '.join(a if len(a) < 60 else a[:40] + '...(%d characters)' % len(a) for a in case['opt']) if len(case['opt']) < 20 else '%s x %d' % (case['opt'][0], len(case['opt'])))
         r = finish(run, o, TOOL_OK, d, 'tool/%s/option/%s' % (name, case['opt'][0] if case['opt'] else 'none'), big_ok=False)
         return r or core.R(True, 'rc%s' % o.rc, nontrivial=True, states=['%s-opt/%d' % (name, o.rc)])
     if k == 'dasl':
